@@ -34,6 +34,7 @@ class Outcome:
     labels: list = field(default_factory=list)
     nontrivial: list = field(default_factory=list)
     comparisons: int = 0
+    nontrivial_instances: int = 0
     discards: list = field(default_factory=list)  # per-instance discard reasons
     failure: Optional[dict] = None
     opt: Optional[OptOutcome] = None
@@ -51,10 +52,7 @@ def projection_sigs(spec: SemSpec, case: Case, src_prg: list, in_sigs: set[Sig],
     if spec.proj == "out":
         return set(out_sigs), shown
     if spec.proj == "inout":
-        extra = astutil.shown_signatures(src_prg) | {
-            (s.name, s.arity) for s in src_prg if s.ast_type.name == "ProjectSignature"
-        }
-        return set(out_sigs) | set(in_sigs) | extra, shown
+        return set(out_sigs) | set(in_sigs), shown
     raise ValueError(spec.proj)
 
 
@@ -179,7 +177,9 @@ def evaluate(case: Case, spec: SemSpec, tier: str = "quick", opt_timeout: float 
         if nontriv and spec.need_aux:
             nontriv = aux
         if nontriv:
-            out.nontrivial.append(case_hash(cfg_key, inst))
+            out.nontrivial_instances += 1
+            if not out.nontrivial:
+                out.nontrivial.append(cfg_key)
     if out.comparisons == 0 and out.discards:
         out.status, out.reason = "discard", "all_instances:" + out.discards[0]
     return out
